@@ -308,6 +308,7 @@ class State:
         self.helpers = []    # (helper name, route) seen on the stub instance
         self.resps = []
         self.err = None      # (Status, message) raised by the handler after consuming its requests
+        self.pingpong = False  # stream-stream handler answers every request immediately
 
 
 def make_handler(m, st):
@@ -340,8 +341,11 @@ def make_handler(m, st):
             st.log.append(entry + (reqs,))
             async for r in it:
                 reqs.append(r)
-            for r in st.resps:
-                yield r
+                if st.pingpong and len(reqs) <= len(st.resps):
+                    yield st.resps[len(reqs) - 1]      # interactive use: answer each request at once
+            if not st.pingpong:
+                for r in st.resps:
+                    yield r
             if st.err:
                 raise grpclib.GRPCError(*st.err)
     return h
@@ -438,6 +442,7 @@ async def exec_case(env, si, st, channel, case, obs=None):
     del st.log[:], st.dispatch[:], st.requests[:], st.helpers[:]
     st.resps = resps
     st.err = (getattr(Status, case["status"]), msg) if mode == "error" else None
+    st.pingpong = mode == "pingpong"
     stub_kw, call_kw = {}, {}
     kw = case.get("kw")
     if kw:
@@ -458,12 +463,25 @@ async def exec_case(env, si, st, channel, case, obs=None):
     else:
         arg = reqs[0]
     got, err = [], None
+    if mode == "pingpong":
+        # the caller produces request i+1 only after it has received response i
+        progress = asyncio.Event()
+
+        async def interactive():
+            for i, r in enumerate(reqs):
+                yield r
+                while len(got) <= i:
+                    progress.clear()
+                    await progress.wait()
+        arg = interactive()
 
     async def call():
         fn = getattr(stub, m.py)
         if m.ss:
             async for r in fn(arg, **call_kw):
                 got.append(r)
+                if mode == "pingpong":
+                    progress.set()
         else:
             got.append(await fn(arg, **call_kw))
 
@@ -561,6 +579,9 @@ def plan_cases(rng, svc, k, unimpl, kw_mode, tier):
                     case(m, "normal", rl, sl, ik)
         if m.cs:
             case(m, "normal", rng.randint(1, k), rng.randint(0, k) if m.ss else 1, "iter")
+        if m.cs and m.ss:
+            n = rng.randint(1, k)
+            case(m, "pingpong", n, n, "agen")
         for status in rng.sample(STATUSES, 2 if tier == "quick" else 4):
             rl = rng.randint(0, k) if m.cs else 1
             ik = rng.choice(iks)
